@@ -19,6 +19,8 @@ from pycoin.symbols.btc import network as BTC
 from pycoin.symbols.btg import network as BTG
 from pycoin.symbols.ltc import network as LTC
 
+from gen import subproc
+
 PROPERTY = "C20"
 COIN = 10**8
 # per-coin MAX_MONEY as the property states it: 21,000,000 coins; "Groestlcoin differs" (105,000,000 GRS)
@@ -389,4 +391,7 @@ SUBCHECKS = [
                   "among normal inputs, padded scripts giving stripped/total size 999999/1000000/1000001 with and without witness; "
                   "verdict must-reject/must-accept/don't-care per the two-readings rule; check() must not modify the transaction; "
                   "coinbase => is_coinbase() and bad_solution_count()==0; non-trivial = some field on a boundary or a defect present"),
+    SubCheck("check_tx_python_O", subproc.optimized_variant("checks.c20_checktx", "o_check"), strategy=s_check, budget=(600, 10000), nontrivial=nt_check,
+             rule="the check_tx cases evaluated in a child interpreter started with PYTHONOPTIMIZE=1 (python -O: assert statements are "
+                  "compiled away, so validation written as an assert vanishes; the child asserts that mode)"),
 ]
